@@ -245,10 +245,18 @@ def joinPaths (base target : Text) : Text :=
   | '/' :: t => joinSlash (normSegs [] (splitSlash t))
   | _ => joinSlash (normSegs [] (splitSlash (base ++ '/' :: target)))
 
-/-- the part a sheet is read from (reader/xlsx.rs: the FIRST relationship of the workbook part whose id is
-    the sheet's `r:id`; `RawFile::set_attributes(arv, "xl", target)`); `none` = the sheet is left unread -/
+/-- the relationship a sheet is read through.  reader/xlsx.rs loops over ALL relationships of the workbook part and,
+    for EVERY one whose id is the sheet's `r:id`, reads that part into a fresh `RawWorksheet` and stores it in the sheet
+    (`set_raw_data_of_worksheet`), overwriting what an earlier relationship with the same id left: the LAST one wins.
+    (OPC requires unique ids; with unique ids first = last.  With a duplicated id the code also opens the parts of the
+    earlier ones — `by_name(..).unwrap()` — and panics when one of them is missing: NOT modelled, see the props file.) -/
+def sheetRel (wbRels : List RelR) (s : SheetR) : Option RelR :=
+  (wbRels.filter (·.id = s.rid)).getLast?
+
+/-- the part a sheet is read from (`RawFile::set_attributes(arv, "xl", target)` of the relationship `sheetRel`);
+    `none` = the sheet is left unread -/
 def sheetPart (wbRels : List RelR) (s : SheetR) : Option Text :=
-  (wbRels.find? (·.id = s.rid)).map fun r => joinPaths "xl".toList (stripXl r.target)
+  (sheetRel wbRels s).map fun r => joinPaths "xl".toList (stripXl r.target)
 
 /-- the relationships part of a part (`RawFile::get_path` + `make_rel_name`):
     `dir/_rels/file.rels` -/
